@@ -55,7 +55,7 @@ func applyGCVariant(tr *Trace, variant int) {
 		return
 	}
 	g := NewRng(tr.Seed, uint64(StreamGC+variant))
-	permille := []int{0, 60, 200, 500}[variant%4]
+	permille := []int{0, 60, 120, 160}[variant%4]
 	for i := range tr.Steps {
 		if g.Bool(permille) {
 			switch g.Intn(4) {
@@ -150,7 +150,7 @@ var c13Configs = []procConfig{
 	{"gomaxprocs1-nogc", []string{"GOMAXPROCS=1", "GOGC=100"}, 0, 4},
 	{"gomaxprocs4-gc-boundaries-gogc20", []string{"GOMAXPROCS=4", "GOGC=20"}, 1, 4},
 	{"gomaxprocs16-gc-midop-gogcoff", []string{"GOMAXPROCS=16", "GOGC=off"}, 2, 4},
-	{"gomaxprocs2-gc-heavy-gogc1", []string{"GOMAXPROCS=2", "GOGC=1"}, 3, 4},
+	{"gomaxprocs2-gc-heavy-gogc5", []string{"GOMAXPROCS=2", "GOGC=5"}, 3, 4},
 }
 
 func selfBin() string {
